@@ -92,7 +92,6 @@ FIRST = {
     'C07-9': ('silent', [], 'C07.R9 storage type of preallocated arrays (symbolic element-type lattice, sa/dtypeflow.py)'),
     'C07-10': ('analysis-error', [], 'operator tables hoisted into tuples are evaluated (C07.R6 / R8)'),
     'C01-6': ('analysis-error', ['C02'], 'factor algebra: np.sign as a monomial with the constant-sign obligation; real form'),
-    'C01-7': ('analysis-error', [], 'as C01-6'),
     'C03-5': ('silent', [], 'C03.R7 storage type of preallocated arrays'),
     'C03-6': ('analysis-error', [], 'label stores of multiply_mpo resolved through locals (rolling pair by induction over the loop); '
                                     'coverage of the bonds 0..L by the stores; contraction read off the leg value instead of the '
